@@ -146,10 +146,14 @@ def rule_d(prog, rep):
             nm = "%s.%s" % (getattr(a.value, "id", "?"), a.attr) if isinstance(a, ast.Attribute) else None
             ok = nm in (want, want.replace("amax", "max").replace("amin", "min"), want.replace("amax", "nanmax") if False else want)
         rep.check(ok, "R-C18-d", ci.fq, "%s delegates to %s" % (cls, want), "", "op is %s" % (expr is not None and ast.unparse(expr)))
-    mo = AT.model(prog, "xfuncs", "xfunc_op_base", aggr.Config())
-    fi, I, fr = mo.fill
-    ops = [e for e in I.events if e.kind == "call" and e["f"].op == "attr" and e["f"].args[1] == "op"]
-    rep.check(bool(ops) and all(dict(e["kwargs"]).get("axis") == tm.const(0) for e in ops), "R-C18-d", fi.fq, "min/max reduce over the rows of the cell (axis=0)", "%d call sites" % len(ops), "")
+    for co in (True, False):
+        for ign in (False, True):
+            mo = AT.model(prog, "xfuncs", "xfunc_op_base", aggr.Config(coords=co, N=not co, ignore=ign))
+            fi, I, fr = mo.fill
+            ops = [e for e in I.events if e.kind == "call" and e["f"].op == "attr" and e["f"].args[1] == "op"]
+            rep.check(bool(ops) and all(dict(e["kwargs"]).get("axis") == tm.const(0) for e in ops), "R-C18-d", fi.fq,
+                      "min/max reduce over the rows of the cell (axis=0) (%s, %s)" % ("by coordinates" if co else "no coordinates", "ignore" if ign else "propagate"), "%d call sites" % len(ops),
+                      "the reduction is not over axis 0", witness={"inputs": "facts of shape (N, 1)"})
     # corrcoef / cov, with and without dimensions; every branch stores its result
     for co in (True, False):
         tag = "by coordinates" if co else "no coordinates"
